@@ -14,6 +14,7 @@ import z3
 
 from . import model as M
 from .extract import ClassInfo, FuncInfo, Package, body_of
+from .sym import register_fresh
 from .sym import (NONE, NOTIMPL, MODE_ID, Obj, Path, T_DEC, T_FLOAT, T_FRAC,
                   T_INT, T_STDDEC, TBool, TInt, TObj, TOpt, TRat, TStr,
                   Unsupported, V, VBool, VClass, VDate, VDictLit, VExc, VFunc,
@@ -135,7 +136,14 @@ class Interp:
 
     def alloc(self, klass: str, base: str = "o") -> VObj:
         o = self.path.fresh(base, Obj)
+        register_fresh(o)
         self.path.assume(z3.Not(self.heap.get("$alloc", o)))
+        # read-over-write simplification uses the distinctness of fresh
+        # objects syntactically; state it for the solver as well
+        earlier = self.path.__dict__.setdefault("_fresh_objs", [])
+        if earlier:
+            self.path.assume(z3.And(*[o != f for f in earlier]))
+        earlier.append(o)
         self.heap.set("$alloc", o, z3.BoolVal(True))
         return VObj(o, klass)
 
